@@ -637,21 +637,23 @@ impl<M: Hash + Clone + Eq, A: Ord + Hash + Clone> Orswot<M, A> {
     }
 //@end
 
-    // OUT OF REACH (assumed, bounded stand-in `orswot_iter`): `entries.iter().map(move |..| ReadCtx{..})`
-    // returns an opaque Map adapter (see VClock::iter).
-    #[verifier::external_body]
+    // `entries.iter().map(move |..| ReadCtx{..})`: verified against the N2 shim for the Map adapter (see VClock::iter); the bounded
+    // stand-in `orswot_iter` still runs.
 //@extract fn src/orswot.rs "Orswot" iter
     pub fn iter(&self) -> /*@ (r: @*/ impl Iterator<Item = ReadCtx<&M, A>> /*@ ) @*/
     //@ ensures r.obeys_prophetic_iter_laws(), r.decrease() is Some,
+    //@     // C07: one item per present member, each carrying the set clock as add context and the member's own clock as remove context
     //@     params_ok::<M, A>() ==> forall|i: int| 0 <= i < r.remaining().len() ==> {
     //@         let x = #[trigger] r.remaining()[i];
     //@         self.ents().contains_key(*x.val) && x.add_clock@ == self.cl() && x.rm_clock@ == self.ec(*x.val) },
+    //@     params_ok::<M, A>() ==> forall|k: M| self.ents().contains_key(k) ==> exists|i: int| 0 <= i < r.remaining().len() && *(#[trigger] r.remaining()[i]).val == k,
     {
-        self.entries.iter().map(move |(m, clock)| ReadCtx {
+        //@ let ghost rel = |p: (&M, &VClock<A>), x: ReadCtx<&M, A>| x.val == p.0 && (params_ok::<M, A>() ==> x.add_clock@ == self.cl() && x.rm_clock@ == p.1@);
+        /*@ let it0 = @*/ self.entries.iter() /*@ ; let ghost es = it0.remaining(); proof { crate::stdx5::axiom_hash_iter_finite(&it0); } let r0 = crate::stdx5::shim_iter_map_rel(it0, Ghost(rel), @*/ /*@<*/ .map( /*@>*/ move /*@<*/ | /*@>*/ /*@<pat*/ (m, clock) /*@>*/ /*@<*/ | /*@>*/ /*@ |p: (&M, &VClock<A>)| -> (o: ReadCtx<&M, A>) ensures rel(p, o) { let $pat = p; @*/ ReadCtx {
             add_clock: self.clock.clone(),
             rm_clock: clock.clone(),
             val: m,
-        })
+        } /*@ } @*/ ) /*@ ; proof { if params_ok::<M, A>() { let rs = r0.remaining(); assert forall|i: int| 0 <= i < rs.len() implies ({ let x = #[trigger] rs[i]; self.ents().contains_key(*x.val) && x.add_clock@ == self.cl() && x.rm_clock@ == self.ec(*x.val) }) by { assert(rel(es[i], rs[i])); assert(self.ents().contains_key(*es[i].0)); } assert forall|k: M| self.ents().contains_key(k) implies exists|i: int| 0 <= i < rs.len() && *(#[trigger] rs[i]).val == k by { assert(es.contains((&k, &self.ents()[k]))); let i = choose|i: int| 0 <= i < es.len() && es[i] == (&k, &self.ents()[k]); assert(rel(es[i], rs[i])); } } } r0 @*/
     }
 //@end
 
